@@ -47,8 +47,20 @@ fn check_accessors(e: &Encoded, c: &Case, archive: &Arc<Vec<u8>>) -> Result<(), 
     if a.chunk_hash_length() != c.cfg.hash_len {
         return Err(format!("accessor: chunk_hash_length {} != {}", a.chunk_hash_length(), c.cfg.hash_len));
     }
-    if a.chunk_compression() != c.cfg.comp.to_bitar() {
-        return Err(format!("accessor: chunk_compression {:?} != {:?}", a.chunk_compression(), c.cfg.comp));
+    match (c.spec.recorded_level, c.cfg.comp) {
+        (Some(l), comp) if comp != Comp::None => {
+            // bitar::Compression cannot be built with a level outside bita's own range: compare what it prints
+            let want = format!("{} (level {})", match comp { Comp::Brotli(_) => "Brotli", Comp::Zstd(_) => "zstd", _ => "LZMA" }, l);
+            let got = a.chunk_compression().map(|x| x.to_string());
+            if got.as_deref() != Some(want.as_str()) {
+                return Err(format!("accessor: chunk_compression {:?} != recorded {:?}", got, want));
+            }
+        }
+        _ => {
+            if a.chunk_compression() != c.cfg.comp.to_bitar() {
+                return Err(format!("accessor: chunk_compression {:?} != {:?}", a.chunk_compression(), c.cfg.comp));
+            }
+        }
     }
     let md: BTreeMap<String, Vec<u8>> = a.metadata_iter().map(|(k, v)| (k.to_string(), v.to_vec())).collect();
     if md != d.metadata {
@@ -167,6 +179,7 @@ pub fn run_case(c: &Case, rec: &mut CaseRec) -> Result<(), String> {
     dim(permuted, "stored_order_not_dictionary_order", rec);
     let descending = e.stored.len() >= 2 && e.stored.windows(2).all(|w| w[1].0 < w[0].0);
     dim(descending, "stored_order_descending", rec);
+    dim(s.recorded_level.is_some() && c.cfg.comp != Comp::None, "recorded_compression_level_not_the_writers", rec);
     // the descriptor table is not in order of first occurrence in the source (first uses of the table entries not ascending)
     let mut seen: Vec<u32> = vec![];
     for r in &e.dict.rebuild_order {
@@ -218,8 +231,9 @@ fn spec_strategy() -> impl Strategy<Value = EncSpec> {
         prop_oneof![Just("0.13.0".to_string()), Just(String::new()), Just("9.99.9-other-tool".to_string())],
         prop_oneof![3 => Just(0u8), 1 => 1u8..50],
         prop_oneof![3 => Just(vec![]), 1 => prop::collection::vec(any::<u16>(), 1..8), 1 => Just(vec![9u16, 8, 7, 6, 5, 4, 3, 2, 1, 0])],
+        prop_oneof![4 => Just(None), 1 => Just(Some(0u32)), 1 => prop_oneof![Just(10u32), Just(12), Just(23), Just(100), Just(u32::MAX)].prop_map(Some), 1 => (0u32..30).prop_map(Some)],
     )
-        .prop_map(|((legacy_magic, slack, order_keys, gaps), storage, (ud, udesc, up, uc), (explicit_zeros, unpacked_rebuild), metadata, version, trailing, desc_keys)| EncSpec {
+        .prop_map(|((legacy_magic, slack, order_keys, gaps), storage, (ud, udesc, up, uc), (explicit_zeros, unpacked_rebuild), metadata, version, trailing, desc_keys, recorded_level)| EncSpec {
             legacy_magic,
             slack,
             order_keys,
@@ -231,6 +245,7 @@ fn spec_strategy() -> impl Strategy<Value = EncSpec> {
             version,
             trailing,
             desc_keys,
+            recorded_level,
         })
 }
 
